@@ -5,14 +5,14 @@ use crate::ext;
 use crate::val::*;
 use serde_json::{json, Value as J};
 
-#[derive(Clone, Copy, Debug, PartialEq, Eq)]
+#[derive(Clone, Copy, Debug, PartialEq, Eq, serde::Serialize, serde::Deserialize)]
 pub enum Paren {
     Minimal,
     Full,
     Redundant,
 }
 
-#[derive(Clone, Copy, Debug)]
+#[derive(Clone, Copy, Debug, serde::Serialize, serde::Deserialize)]
 pub struct Style {
     pub paren: Paren,
     /// print attribute access on plain identifiers as `e["a"]` instead of `e.a`
